@@ -277,7 +277,19 @@ where
                     Ok(r) => r,
                     Err(e) => {
                         let mut r = Rep::new();
-                        r.inconc(format!("monitor shard {} itself panicked (harness error): {}", i, e));
+                        if e.contains("/repo/") {
+                            // the panic comes from library code reached through a call the monitor did not expect to fail
+                            // (object construction, a model-independent helper): that is a finding, not a harness error
+                            let prop = PROP.get().cloned().unwrap_or_else(|| "c??".to_string());
+                            r.ev(1);
+                            r.violation(
+                                &format!("{}:panic:library_call_outside_a_guard", prop),
+                                format!("library code panicked in a call the monitor makes unconditionally (shard {}): {}", i, e),
+                                String::new(),
+                            );
+                        } else {
+                            r.inconc(format!("monitor shard {} itself panicked (harness error): {}", i, e));
+                        }
                         r
                     }
                 };
@@ -287,6 +299,8 @@ where
     });
     total.into_inner().unwrap()
 }
+
+pub static PROP: std::sync::OnceLock<String> = std::sync::OnceLock::new();
 
 pub fn threads() -> usize {
     std::thread::available_parallelism().map(|n| n.get()).unwrap_or(4).min(16)
